@@ -1148,7 +1148,24 @@ fn dispatch1(entry: &str, beh: &str, raw: &[u8]) -> String {
         Ok(r) => r,
         Err(e) => return format!("unconvertible {:?}", e),
     };
-    let err1 = if beh.starts_with("err:") {
+    let err1 = if let Some(d) = beh.strip_prefix("errd:") {
+        // a status constructed directly (not through u16): Name or Name(n)
+        let (name, arg) = match d.split_once('(') {
+            Some((n, a)) => (n, a.trim_end_matches(')').parse::<u8>().ok()),
+            None => (d, None),
+        };
+        Some(match (name, arg) {
+            ("ErrorTriggering", Some(n)) => ctap1::Error::ErrorTriggering(n),
+            ("WarningTriggering", Some(n)) => ctap1::Error::WarningTriggering(n),
+            ("RemainingRetries", Some(n)) => ctap1::Error::RemainingRetries(n),
+            ("MoreAvailable", Some(n)) => ctap1::Error::MoreAvailable(n),
+            ("WrongLeField", Some(n)) => ctap1::Error::WrongLeField(n),
+            ("SecurityStatusNotSatisfied", _) => ctap1::Error::SecurityStatusNotSatisfied,
+            ("KeyReferenceNotFound", _) => ctap1::Error::KeyReferenceNotFound,
+            ("NotEnoughMemory", _) => ctap1::Error::NotEnoughMemory,
+            _ => return "unbuildable status".into(),
+        })
+    } else if beh.starts_with("err:") {
         Some(match &beh[4..] {
             "6985" => ctap1::Error::ConditionsOfUseNotSatisfied,
             "6a80" => ctap1::Error::IncorrectDataParameter,
